@@ -6,6 +6,6 @@ CONSTANTS
   MaxCount = 2
   Small = FALSE
 SPECIFICATION Spec
-INVARIANTS CacheEqualsStored ReaddRefused StoredTagsNormalised MaskedNsOnlyOwn ActiveOnlyForNonRoot StoreGetsTheDocumentedQuery
+INVARIANTS CreationStoresNoReservedTag CacheEqualsStored ReaddRefused StoredTagsNormalised MaskedNsOnlyOwn ActiveOnlyForNonRoot StoreGetsTheDocumentedQuery
 PROPERTIES ImmutableNsUntouchable RejectedChangesNothing
 CHECK_DEADLOCK FALSE
